@@ -22,6 +22,15 @@ pub enum ExtShape {
     TwoByte(Vec<u8>),
     /// RFC 3550 raw profile extension with this many 32-bit words
     Raw(u16, u8),
+    // ---- thorough-tier deep blocks
+    /// one-byte form with explicit (id 1..=14, data length 1..=16) elements. Padding mask: bit 0 one
+    /// zero byte before the first element, bit 1 one zero byte between elements, bit 2 a whole
+    /// zero word after the last element.
+    OneByteX(Vec<(u8, u8)>, u8),
+    /// two-byte form with explicit (id 1..=255, data length 0..=255) elements; same padding mask
+    TwoByteX(Vec<(u8, u8)>, u8),
+    /// raw profile extension with this many 32-bit words (the length field is 16 bits wide)
+    RawW(u16, u32),
 }
 
 pub const ONE_IDS: [u8; 3] = [1, 14, 7];
@@ -73,6 +82,34 @@ impl ExtShape {
                 data = (0..(*words as usize * 4)).map(|j| 0xC0u8.wrapping_add(j as u8)).collect();
                 *p
             }
+            ExtShape::OneByteX(el, pad) | ExtShape::TwoByteX(el, pad) => {
+                let two = matches!(self, ExtShape::TwoByteX(..));
+                for (i, (id, l)) in el.iter().enumerate() {
+                    if (i == 0 && pad & 1 != 0) || (i > 0 && pad & 2 != 0) {
+                        data.push(0);
+                    }
+                    let d = elem_data(i, *l as usize);
+                    if two {
+                        data.push(*id);
+                        data.push(*l);
+                    } else {
+                        data.push((*id << 4) | (*l - 1));
+                    }
+                    data.extend_from_slice(&d);
+                    elems.push((*id, d));
+                }
+                if pad & 4 != 0 {
+                    while data.len() % 4 != 0 {
+                        data.push(0);
+                    }
+                    data.extend_from_slice(&[0; 4]);
+                }
+                if two { 0x1000 } else { 0xBEDE }
+            }
+            ExtShape::RawW(p, words) => {
+                data = (0..(*words as usize * 4)).map(|j| 0xC0u8.wrapping_add(j as u8)).collect();
+                *p
+            }
         };
         while data.len() % 4 != 0 {
             data.push(0);
@@ -88,7 +125,25 @@ impl ExtShape {
             ExtShape::OneBytePadMid => "1b-padmid".into(),
             ExtShape::TwoByte(l) => format!("2b{l:?}"),
             ExtShape::Raw(p, w) => format!("raw{p:04x}x{w}"),
+            // deep blocks: coarse buckets (element count, padding mask, size class), so that the
+            // class table stays small
+            ExtShape::OneByteX(el, pad) => format!("1bx{}e,pad{pad}", el.len()),
+            ExtShape::TwoByteX(el, pad) => format!("2bx{}e,pad{pad}", el.len()),
+            ExtShape::RawW(p, w) => format!("raww{p:04x},{}", match *w { 0 => "0", 1..=255 => "1..255", 256..=65535 => "256..65535", _ => ">65535" }),
         }
+    }
+    /// ids looked up by every comparison of this shape: the fixed probe set plus the shape's own
+    /// element ids and their neighbours
+    pub fn probe_ids(&self) -> Vec<u8> {
+        let mut v = PROBE_IDS.to_vec();
+        if let ExtShape::OneByteX(el, _) | ExtShape::TwoByteX(el, _) = self {
+            for (id, _) in el {
+                v.extend([id.wrapping_sub(1), *id, id.wrapping_add(1)]);
+            }
+            v.sort_unstable();
+            v.dedup();
+        }
+        v
     }
     /// shapes the reference crate handles correctly (its one-byte parser desynchronises after an
     /// id-15 terminator: it stops reading the extension block without skipping the rest)
@@ -181,7 +236,7 @@ fn ext_view(h: &RtpHeader) -> Option<(u16, &[u8])> {
 /// ids probed by every extension comparison
 pub const PROBE_IDS: [u8; 21] = [0, 1, 2, 3, 4, 5, 6, 7, 8, 9, 10, 11, 12, 13, 14, 15, 16, 199, 200, 201, 255];
 
-fn cmp_ref_fields(x: &RtpPacket, r: &rtp::packet::Packet, what: &str) -> Result<(), String> {
+fn cmp_ref_fields(x: &RtpPacket, r: &rtp::packet::Packet, what: &str, ids: &[u8]) -> Result<(), String> {
     let h = &x.header;
     let rh = &r.header;
     if rh.version != 2 {
@@ -207,7 +262,7 @@ fn cmp_ref_fields(x: &RtpPacket, r: &rtp::packet::Packet, what: &str) -> Result<
             return Err(format!("{what}: ext profile ref={:04x} rustrtc={:04x}", rh.extension_profile, e.profile));
         }
         if e.profile == 0xBEDE || e.profile == 0x1000 {
-            for id in PROBE_IDS {
+            for &id in ids {
                 // the reference stores id-0 never (padding); rustrtc must return None for it too
                 let a = h.get_extension(id).map(|b| b.to_vec());
                 let b = rh.get_extension(id).map(|b| b.to_vec());
@@ -234,7 +289,8 @@ pub fn check_rtp(c: &RtpCase) -> Out {
         "rtp:cc={},ext={},pad={},pl={},m={},pt={},f={}",
         c.csrc, c.ext.bucket(), c.pad, c.payload, c.marker as u8, c.pt, c.fill
     );
-    let sigp = "rtp.packet;in-range";
+    let sigp = if matches!(c.ext, ExtShape::RawW(_, w) if w > 65535) { "rtp.packet;ext_words>65535" } else { "rtp.packet;in-range" };
+    let ids = c.ext.probe_ids();
     let x = build_rtp(c);
     let b = match x.marshal() {
         Ok(b) => b,
@@ -258,13 +314,13 @@ pub fn check_rtp(c: &RtpCase) -> Out {
     match RtpPacket::parse(&b) {
         Ok(p) => {
             if p != x {
-                o.fail(format!("{sigp};roundtrip"), format!("parse(marshal(x)) != x: x={x:?} parsed={p:?}"));
+                o.fail(format!("{sigp};roundtrip"), format!("parse(marshal(x)) != x: case={c:?} x={} parsed={}", crate::truncate(&format!("{x:?}"), 400), crate::truncate(&format!("{p:?}"), 400)));
             }
         }
         Err(e) => o.fail(format!("{sigp};roundtrip"), format!("parse rejects own output: {e:?} case={c:?}")),
     }
     // model agreement on extension lookup
-    for id in PROBE_IDS {
+    for &id in &ids {
         let a = x.header.get_extension(id).map(|v| v.to_vec());
         let m = model_get_ext(ext_view(&x.header), id);
         if a != m {
@@ -276,7 +332,7 @@ pub fn check_rtp(c: &RtpCase) -> Out {
         match ref_call(|| rtp::packet::Packet::unmarshal(&mut Bytes::from(b.clone()))) {
             Ok(Ok(r)) => {
                 o.ref_checks += 1;
-                if let Err(e) = cmp_ref_fields(&x, &r, "ref parse of rustrtc bytes") {
+                if let Err(e) = cmp_ref_fields(&x, &r, "ref parse of rustrtc bytes", &ids) {
                     o.fail(format!("{sigp};ref"), format!("{e}; case={c:?}"));
                 }
             }
@@ -308,11 +364,16 @@ pub fn check_rtp(c: &RtpCase) -> Out {
             }
         }
         let rp = rtp::packet::Packet { header: rh, payload: x.payload.clone() };
-        if let Ok(Ok(rb)) = ref_call(|| rp.marshal()) {
+        // the reference is consulted only where it reads its own serialisation back unchanged
+        // (it mis-sizes raw extension blocks of 65536 bytes and more)
+        let ref_self_consistent = |rb: &Bytes| matches!(ref_call(|| rtp::packet::Packet::unmarshal(&mut rb.clone())), Ok(Ok(r)) if r == rp);
+        if let Ok(Ok(rb)) = ref_call(|| rp.marshal())
+            && ref_self_consistent(&rb)
+        {
             match RtpPacket::parse(&rb) {
                 Ok(px) => {
                     o.ref_checks += 1;
-                    if let Err(e) = cmp_ref_fields(&px, &rp, "rustrtc parse of reference bytes") {
+                    if let Err(e) = cmp_ref_fields(&px, &rp, "rustrtc parse of reference bytes", &ids) {
                         o.fail(format!("{sigp};ref"), format!("{e}; case={c:?}"));
                     }
                     // serialising what was parsed gives bytes the reference parses to the same fields
@@ -468,9 +529,22 @@ pub struct RtxCase {
 }
 
 pub fn check_rtx(c: &RtxCase) -> Out {
+    check_rtx_inner(c, 96, 97)
+}
+
+/// Same laws with explicit primary / RTX payload types (payload of 5 bytes, plain original).
+pub fn check_rtx_pt(seq: u16, pt: u8, rtx_pt: u8, marker: bool) -> Out {
+    let mut o = check_rtx_inner(&RtxCase { seq, payload: 5, marker, shape: 0 }, pt, rtx_pt);
+    let res = if o.fails.is_empty() { "ok" } else { "violation" };
+    let b = |p: u8| match p { 0..=63 => "0..63", 64..=95 => "64..95", _ => "96..127" };
+    o.class = format!("rtxpt:pt={},rtx_pt={},m={}:{res}", b(pt), b(rtx_pt), marker as u8);
+    o
+}
+
+fn check_rtx_inner(c: &RtxCase, pt: u8, rtx_pt: u8) -> Out {
     let mut o = Out::default();
     let ts = (c.seq as u32).wrapping_mul(2_654_435_761).wrapping_add(c.payload as u32);
-    let mut h = RtpHeader::new(96, c.seq, ts, 0xAABB_CCDD);
+    let mut h = RtpHeader::new(pt, c.seq, ts, 0xAABB_CCDD);
     h.marker = c.marker;
     let mut pad = 0;
     if c.shape == 1 {
@@ -480,7 +554,7 @@ pub fn check_rtx(c: &RtxCase) -> Out {
         pad = 3;
     }
     let orig = RtpPacket { header: h, payload: Bytes::from(payload_bytes(c.payload, c.seq as u8)), padding_len: pad };
-    let cfg = RtxSenderConfig { rtx_ssrc: 0x1122_3344, rtx_payload_type: 97 };
+    let cfg = RtxSenderConfig { rtx_ssrc: 0x1122_3344, rtx_payload_type: rtx_pt };
     let rtx_seq = c.seq.wrapping_mul(31).wrapping_add(0xFFF0);
     let rtx = wrap_rtx_packet(&orig, &cfg, rtx_seq);
     let sig = "rtx.wrap-unwrap";
